@@ -62,7 +62,26 @@ def aliasOf (op : String) : Except String (List Bool) := do
   | "copy" => pure (shared src (copyD h1 src).2)
   | "empty" => pure (shared src (emptyD h1 src).2)
   | "adjust" => pure (shared src (adjustD h1 src).2)
+  | "to_memmap" | "to_numpy" => pure (shared src (remapD h1 src true).2)
+  | "to_memmap_noop" | "to_numpy_noop" => pure (shared src (remapD h1 src false).2)
   | _ => throw "BadArg:op"
+
+/-- the density a deepen3 op works on: the one given, or that density after `adjust_box(box, pad)` when a box is given -/
+def getDensMaybeAdjusted (a : Json) : Except String (Dens Int Int) := do
+  let d ← getDens a
+  match a.getObjVal? "box" with
+  | .ok (Json.null) => pure d
+  | .ok _ =>
+      let box ← getBox a "box"
+      if box.length ≠ d.data.shape.length then throw "ValueError"
+      pure (d.adjustBox box (← getInt a "pad"))
+  | .error _ => pure d
+
+def getOptInt (a : Json) (k : String) : Except String (Option Int) :=
+  match a.getObjVal? k with
+  | .ok (Json.null) => pure none
+  | .ok _ => do pure (some (← getInt a k))
+  | .error _ => pure none
 
 def handle (op : String) (a : Json) : Option R :=
   match op with
@@ -130,6 +149,29 @@ def handle (op : String) (a : Json) : Option R :=
       match broadcastAxes (← getNat a "ndim") (← getIntList a "xs") with
       | some r => pure (jInts r)
       | none => throw "ValueError"
+  | "c15.setter" => some do
+      match setterAxes (← getNat a "ndim") (← getIntList a "xs") with
+      | some r => pure (jInts r)
+      | none => throw "ZeroDivisionError"
   | "c15.alias" => some do pure (Json.arr ((← aliasOf (← getStr a "which")).map jBool).toArray)
+  | "c15.pointcloud" => some do
+      let d ← getDensMaybeAdjusted a
+      let cl := toPointcloud d.data (← getInt a "thr")
+      pure (Json.mkObj [("cloud", jNatss cl), ("phys", jIntss (cl.map (phys d.frame)))])
+  | "c15.empty" => some do
+      let d ← getDens a
+      pure (jDens d.empty)
+  | "c15.coreMask" => some do
+      let d ← getDensMaybeAdjusted a
+      let c := coreMask d.data
+      pure (Json.mkObj [("shape", jNats c.shape), ("data", jNats c.toList)])
+  | "c15.com" => some do
+      let d ← getDensMaybeAdjusted a
+      let co ← getOptInt a "cutoff"
+      -- `cutoff=None` takes `min(arr) - 1`: numpy raises on an array without voxels
+      if co.isNone ∧ prodL d.data.shape = 0 then throw "ValueError"
+      let c := centerOfMass d.data co
+      pure (Json.mkObj [("num", jInts c.1), ("den", jInt c.2), ("origin", jInts (d.frame.map Prod.fst)),
+                        ("rate", jInts (d.frame.map Prod.snd))])
   | _ => none
 end Drv.C15
